@@ -672,6 +672,9 @@ func (fr *Frame) external(callee *ssa.Function, x *ssa.Call, args []Val, st *Sta
 		q3 := c.fresh("qi")
 		c.assume(sImp(asciiIn, "(forall (("+q3+" Int)) (! (=> (and (<= 0 "+q3+") (< "+q3+" "+r.C[2]+")) (< (select "+r.C[0]+" "+q3+") 128)) :pattern ((select "+r.C[0]+" "+q3+"))))"))
 		c.assume(sImp(noNul, sAnd(sEq(r.C[2], s.C[2]), "(forall (("+q2+" Int)) (! (=> (and (<= 0 "+q2+") (< "+q2+" "+s.C[2]+")) (= (select "+r.C[0]+" "+q2+") (select "+s.C[0]+" (+ "+s.C[1]+" "+q2+")))) :pattern ((select "+r.C[0]+" "+q2+"))))")))
+		if c.rel != nil {
+			c.rel.ext(fr, full, args, r, reach)
+		}
 		return r
 	case "strings.TrimLeftFunc":
 		c.usedAssumed[full+": result is a suffix of the argument"] = true
@@ -684,7 +687,11 @@ func (fr *Frame) external(callee *ssa.Function, x *ssa.Call, args []Val, st *Sta
 			return "(or (<= " + sSel(s.C[0], j) + " 32) (>= " + sSel(s.C[0], j) + " 127))"
 		}))
 		c.assume(sImp("(< "+k+" "+s.C[2]+")", "(and (< 32 "+sSel(s.C[0], lAdd(s.C[1], k))+") (< "+sSel(s.C[0], lAdd(s.C[1], k))+" 127))"))
-		return Val{K: KStr, T: x.Type(), C: []string{s.C[0], c.define("to", "Int", lAdd(s.C[1], k)), c.define("tl", "Int", lSub(s.C[2], k))}}
+		tr := Val{K: KStr, T: x.Type(), C: []string{s.C[0], c.define("to", "Int", lAdd(s.C[1], k)), c.define("tl", "Int", lSub(s.C[2], k))}}
+		if c.rel != nil {
+			c.rel.ext(fr, full, args, tr, reach)
+		}
+		return tr
 	case "(*strings.Builder).Grow":
 		return Val{K: KNone}
 	case "(*strings.Builder).WriteByte":
